@@ -393,7 +393,7 @@ def tdgl_data(ctx):
             if isinstance(n, ast.Compare) and isinstance(n.ops[0], ast.In) and isinstance(n.comparators[0], (ast.List, ast.Tuple, ast.Set)):
                 out |= {e.value for e in n.comparators[0].elts if isinstance(e, ast.Constant)}
             # the same special-casing spelled `name == "step"`
-            if isinstance(n, ast.Compare) and len(n.ops) == 1 and isinstance(n.ops[0], ast.Eq):
+            if isinstance(n, ast.Compare) and len(n.ops) == 1 and isinstance(n.ops[0], (ast.Eq, ast.NotEq)):
                 for a_, b_ in ((n.left, n.comparators[0]), (n.comparators[0], n.left)):
                     if isinstance(a_, ast.Name) and isinstance(b_, ast.Constant) and isinstance(b_.value, str):
                         out.add(b_.value)
